@@ -117,3 +117,19 @@ pub assume_specification<T: Default>[ core::mem::take ](dest: &mut T) -> (r: T)
     ensures
         r == *old(dest),
         call_ensures(T::default, (), *final(dest));
+
+/// the items a by-reference iterable yields, dereferenced (uninterpreted; `axiom_items_ref_slice` fixes `&[T]`)
+pub uninterp spec fn items_ref<T, I>(it: I) -> Seq<T>;
+
+/// TRUSTED (std): `v.extend(iter)` over references appends copies of the items in order
+pub assume_specification<'a, T: Copy + 'a, A: Allocator, I: IntoIterator<Item = &'a T>>[ <Vec<T, A> as Extend<&'a T>>::extend::<I> ](v: &mut Vec<T, A>, iter: I)
+    ensures
+        final(v)@ == old(v)@ + items_ref::<T, I>(iter),
+;
+
+/// TRUSTED (std): iterating `&[T]` yields its elements in order
+#[verifier::external_body]
+pub proof fn axiom_items_ref_slice<T>()
+    ensures
+        forall|s: &[T]| #[trigger] items_ref::<T, &[T]>(s) == s@,
+{}
